@@ -4,13 +4,17 @@
 (* Per-thread evaluation state lives in chaiscript::detail::threading::Thread_Storage<T>,   *)
 (* a thread_local map from a KEY to T.  The model keeps, per thread, that map (tls), next   *)
 (* to the truth the property speaks about: what has been declared ON THIS ENGINE by THIS    *)
-(* thread since the engine was created (decls).  Engines are created at addresses; the key  *)
-(* of an engine's storage is its ADDRESS (KeyIsAddress = TRUE, the pinned code: `this`) or a *)
-(* process-unique id.  The destructor erases only the destroying thread's entry.            *)
+(* thread since the engine was created (decls).  Engines are created at addresses, by the   *)
+(* main thread or by a worker; the key of an engine's storage is chosen at creation:         *)
+(*   KeyMode = "unique"     a process-unique id (the code after the repair),                 *)
+(*   KeyMode = "address"    the engine's address (the pinned code: `this`),                  *)
+(*   KeyMode = "perthread"  the creating thread's own creation count (a modelled regression: *)
+(*                          a thread_local counter instead of a process-wide one).           *)
+(* The destructor erases only the destroying thread's entry.                                 *)
 (* Isolated: what any thread sees in any live engine is exactly what was declared there.    *)
 EXTENDS Integers, Sequences, FiniteSets, TLC, Json, IOUtils, SequencesExt
 
-CONSTANTS KeyIsAddress, MaxOps
+CONSTANTS KeyMode, MaxOps
 
 EngIds == {1, 2, 3}
 Addrs == {0, 1}
@@ -20,9 +24,11 @@ Names == {"x", "y"}
 Op(k, e, a, t, n) == [k |-> k, e |-> e, a |-> a, t |-> t, n |-> n]
 
 \* machine m: [alive: [EngIds -> BOOLEAN], addr, everLive, tls: [Thrs -> [key -> set of names]], decls: [EngIds \X Thrs -> set], fns: [EngIds -> set]]
-Keys == Addrs \cup {10 + e : e \in EngIds}
-KeyOf(m, e) == IF KeyIsAddress THEN m.addr[e] ELSE 10 + e
+Keys == Addrs \cup {10 + e : e \in EngIds} \cup {20 + k : k \in 1..Cardinality(EngIds)}
+KeyOf(m, e) == m.key[e]
+NewKey(m, op) == CASE KeyMode = "address" -> op.a [] KeyMode = "unique" -> 10 + op.e [] KeyMode = "perthread" -> 20 + m.cnt[op.t] + 1
 M0 == [alive |-> [e \in EngIds |-> FALSE], used |-> [e \in EngIds |-> FALSE], addr |-> [e \in EngIds |-> 0],
+       key |-> [e \in EngIds |-> 0], cnt |-> [t \in Thrs |-> 0],
        tls |-> [t \in Thrs |-> [k \in Keys |-> {}]],
        decls |-> [p \in EngIds \X Thrs |-> {}], fns |-> [e \in EngIds |-> {}], res |-> "ok"]
 
@@ -31,7 +37,7 @@ AddrFree(m, a) == \A e \in EngIds : m.alive[e] => m.addr[e] # a
 Step(m, op) ==
   CASE op.k = "create" ->
          (IF m.used[op.e] \/ ~AddrFree(m, op.a) THEN [m EXCEPT !.res = "skip"]
-          ELSE [m EXCEPT !.alive[op.e] = TRUE, !.used[op.e] = TRUE, !.addr[op.e] = op.a, !.res = "ok"])
+          ELSE [m EXCEPT !.alive[op.e] = TRUE, !.used[op.e] = TRUE, !.addr[op.e] = op.a, !.key[op.e] = NewKey(m, op), !.cnt[op.t] = @ + 1, !.res = "ok"])
            \* Thread_Storage's constructor does not touch any thread's map: stale entries under the same key stay
     [] op.k = "destroy" ->
          (IF ~m.alive[op.e] THEN [m EXCEPT !.res = "skip"]
@@ -44,7 +50,9 @@ Step(m, op) ==
           ELSE IF op.n \in m.tls[op.t][KeyOf(m, op.e)] THEN [m EXCEPT !.res = "redefined"]          \* what the implementation sees decides
           ELSE [m EXCEPT !.tls[op.t][KeyOf(m, op.e)] = @ \cup {op.n}, !.decls[<<op.e, op.t>>] = @ \cup {op.n}, !.res = "ok"])
     [] op.k = "def" ->       \* a function defined in one engine
-         (IF ~m.alive[op.e] THEN [m EXCEPT !.res = "skip"] ELSE [m EXCEPT !.fns[op.e] = @ \cup {op.n}, !.res = "ok"])
+         (IF ~m.alive[op.e] THEN [m EXCEPT !.res = "skip"]
+          ELSE IF op.n \in m.fns[op.e] THEN [m EXCEPT !.res = "redefined"]                          \* the same signature twice in ONE engine
+          ELSE [m EXCEPT !.fns[op.e] = @ \cup {op.n}, !.res = "ok"])
 
 \* the property: every thread sees in every live engine exactly what was declared there
 IsolatedIn(m) == \A e \in EngIds : m.alive[e] => \A t \in Thrs : m.tls[t][KeyOf(m, e)] = m.decls[<<e, t>>]
@@ -54,7 +62,7 @@ View(m) == [e \in EngIds |-> [alive |-> m.alive[e], fns |-> m.fns[e], vars |-> <
 
 -----------------------------------------------------------------------------
 (* mode M: all histories *)
-Ops == {Op("create", e, a, 0, "") : e \in EngIds, a \in Addrs} \cup {Op("destroy", e, 0, t, "") : e \in EngIds, t \in Thrs}
+Ops == {Op("create", e, a, t, "") : e \in EngIds, a \in Addrs, t \in Thrs} \cup {Op("destroy", e, 0, t, "") : e \in EngIds, t \in Thrs}
        \cup {Op("decl", e, 0, t, n) : e \in EngIds, t \in Thrs, n \in Names} \cup {Op("def", e, 0, 0, n) : e \in EngIds, n \in {"f"}}
 
 VARIABLES m, steps
